@@ -1,21 +1,24 @@
 //! Registry of the decoders under test ("targets") and of the stateless checks run on what they return.
 use crate::alloc_track;
+use crate::steps::st;
 use bytes::{Buf, Bytes};
 use chrono::Utc;
 use croaring::Bitmap;
 use grin_chain::txhashset::{BitmapAccumulator, BitmapChunk, BitmapSegment};
 use grin_core::core::hash::{Hash, Hashed};
 use grin_core::core::merkle_proof::MerkleProof;
-use grin_core::core::pmmr;
 use grin_core::core::pmmr::segment::{Segment, SegmentIdentifier, SegmentProof};
+use grin_core::core::pmmr::{self, ReadonlyPMMR, VecBackend, PMMR};
 use grin_core::core::transaction::{
-	CommitWrapper, Input, KernelFeatures, Output, OutputIdentifier, Transaction, TransactionBody, TxKernel, Weighting,
+	CommitWrapper, Input, Inputs, KernelFeatures, Output, OutputFeatures, OutputIdentifier, Transaction, TransactionBody, TxKernel,
+	Weighting,
 };
 use grin_core::core::{
 	Block, BlockHeader, CompactBlock, ShortId, UntrustedBlock, UntrustedBlockHeader, UntrustedCompactBlock,
 };
 use grin_core::pow::{Proof, ProofOfWork};
-use grin_core::ser::{self, BufReader, DeserializationMode, PMMRIndexHashable, ProtocolVersion, Readable};
+use grin_core::ser::{self, BufReader, DeserializationMode, PMMRIndexHashable, PMMRable, ProtocolVersion, Readable, Writeable};
+use grin_keychain::BlindingFactor;
 use grin_p2p::msg::{
 	self, BanReason, GetPeerAddrs, Hand, Locator, Message, MsgHeaderWrapper, OutputBitmapSegmentResponse,
 	OutputSegmentResponse, PeerAddrs, PeerError, Ping, Pong, SegmentRequest, SegmentResponse, Shake, TxHashSetArchive,
@@ -23,7 +26,9 @@ use grin_p2p::msg::{
 };
 use grin_p2p::types::{AttachmentMeta, PeerAddr};
 use grin_p2p::verif_export::Codec;
-use grin_util::secp::pedersen::RangeProof;
+use grin_util::secp::pedersen::{Commitment, RangeProof};
+use grin_util::secp::Signature;
+use std::collections::HashSet;
 use std::io::Write;
 use std::net::{Shutdown, TcpListener, TcpStream};
 use std::path::PathBuf;
@@ -87,7 +92,90 @@ pub struct Target {
 	pub name: &'static str,
 	pub kind: TKind,
 	pub run: fn(&CaseIn) -> Res,
+	/// the post-decode steps this target pushes a decoded value through (spec/Decode.tla `PostSteps`, same order)
+	pub steps: &'static [&'static str],
 }
+
+// ---------------------------------------------------------------------------------------------------------------------
+// The catalogue of post-decode steps (names = `unit` of a violation signature).  Sources: p2p/src/protocol.rs
+// (`Protocol::consume`, every message type), servers/src/common/adapters.rs (NetToChainAdapter), chain/src/pipe.rs
+// (validate_header / validate_block up to the first store access), chain/src/txhashset/desegmenter.rs (add_*_segment,
+// apply_bitmap_segment), pool/src/transaction_pool.rs (add_to_pool up to the first chain access), p2p/src/handshake.rs,
+// api/src/handlers (hex arguments -> Commitment / Hash, pool push).
+pub const S_ID_ARITH: &str = "SegmentIdentifier::arith";
+pub const S_SEG_RANGE: &str = "Segment::segment_pos_range";
+pub const S_SEG_ROOT: &str = "Segment::root";
+pub const S_SEG_FUP: &str = "Segment::first_unpruned_parent";
+pub const S_SEG_VALIDATE: &str = "Segment::validate";
+pub const S_SEG_VALIDATE_WITH: &str = "Segment::validate_with";
+pub const S_SEG_ACC: &str = "Segment::accessors";
+pub const S_SEG_PARTS: &str = "Segment::parts";
+pub const S_BM_INTO: &str = "BitmapSegment::into_segment";
+pub const S_BM_APPEND: &str = "BitmapAccumulator::append_chunk";
+pub const S_BM_FROM: &str = "BitmapSegment::from<Segment>";
+pub const S_FROM_PMMR: &str = "Segment::from_pmmr";
+pub const S_TX_VREAD: &str = "Transaction::validate_read";
+pub const S_TX_HASH: &str = "Transaction::hash";
+pub const S_TX_FEES: &str = "Transaction::fees";
+pub const S_INPUTS: &str = "Inputs::conversions";
+pub const S_KERN_VERIFY: &str = "TxKernel::verify";
+pub const S_KERN_ACC: &str = "TxKernel::accessors";
+pub const S_TX_VALIDATE: &str = "Transaction::validate";
+pub const S_BODY_VREAD: &str = "TransactionBody::validate_read";
+pub const S_UB_INTO: &str = "UntrustedBlock::into<Block>";
+pub const S_BLK_VREAD: &str = "Block::validate_read";
+pub const S_BLK_HASH: &str = "Block::hash";
+pub const S_HDR_ACC: &str = "BlockHeader::accessors";
+pub const S_POW_DIFF: &str = "ProofOfWork::to_difficulty";
+pub const S_BLK_FEES: &str = "Block::total_fees";
+pub const S_BLK_COINBASE: &str = "Block::verify_coinbase";
+pub const S_BLK_VALIDATE: &str = "Block::validate";
+pub const S_CB_FROM: &str = "CompactBlock::from<Block>";
+pub const S_UCB_INTO: &str = "UntrustedCompactBlock::into<CompactBlock>";
+pub const S_CB_ACC: &str = "CompactBlock::accessors";
+pub const S_HYDRATE: &str = "Block::hydrate_from";
+pub const S_UH_INTO: &str = "UntrustedBlockHeader::into<BlockHeader>";
+pub const S_MP_VERIFY: &str = "MerkleProof::verify";
+pub const S_MP_HEX: &str = "MerkleProof::to_hex";
+pub const S_SP_RECON: &str = "SegmentProof::reconstruct_root";
+pub const S_SP_VALIDATE: &str = "SegmentProof::validate";
+pub const S_SP_VALIDATE_WITH: &str = "SegmentProof::validate_with";
+pub const S_ADDRS: &str = "PeerAddrs::accessors";
+pub const S_ADDR_KEY: &str = "PeerAddr::as_key";
+pub const S_HAND: &str = "Hand::accessors";
+pub const S_SHAKE: &str = "Shake::accessors";
+pub const S_LOCATOR: &str = "Locator::accessors";
+pub const S_ARCHIVE: &str = "TxHashSetArchive::attachment_meta";
+pub const S_COMMIT_FROM: &str = "Commitment::from_vec";
+pub const S_HASH_FROM: &str = "Hash::from_vec";
+pub const S_MSG_FMT: &str = "Message::fmt";
+
+const ST_SEG: &[&str] = &[S_ID_ARITH, S_SEG_RANGE, S_SEG_ROOT, S_SEG_FUP, S_SEG_VALIDATE, S_SEG_VALIDATE_WITH, S_SEG_ACC, S_SEG_PARTS];
+const ST_BITMAP: &[&str] = &[
+	S_BM_INTO, S_ID_ARITH, S_SEG_RANGE, S_SEG_ROOT, S_SEG_FUP, S_SEG_VALIDATE, S_SEG_VALIDATE_WITH, S_SEG_ACC, S_SEG_PARTS, S_BM_APPEND, S_BM_FROM,
+];
+const ST_SEGREQ: &[&str] = &[S_ID_ARITH, S_FROM_PMMR];
+const ST_TX: &[&str] = &[S_TX_VREAD, S_TX_HASH, S_TX_FEES, S_INPUTS, S_KERN_VERIFY, S_TX_VALIDATE];
+const ST_BODY: &[&str] = &[S_BODY_VREAD];
+const ST_KERNEL: &[&str] = &[S_KERN_VERIFY, S_KERN_ACC];
+const ST_HEADER: &[&str] = &[S_HDR_ACC, S_POW_DIFF];
+const ST_UHEADER: &[&str] = &[S_UH_INTO, S_HDR_ACC, S_POW_DIFF];
+const ST_BLOCK: &[&str] = &[S_BLK_VREAD, S_BLK_HASH, S_HDR_ACC, S_POW_DIFF, S_BLK_FEES, S_INPUTS, S_BLK_COINBASE, S_BLK_VALIDATE, S_CB_FROM];
+const ST_UBLOCK: &[&str] = &[
+	S_UB_INTO, S_BLK_VREAD, S_BLK_HASH, S_HDR_ACC, S_POW_DIFF, S_BLK_FEES, S_INPUTS, S_BLK_COINBASE, S_BLK_VALIDATE, S_CB_FROM,
+];
+const ST_CB: &[&str] = &[S_CB_ACC, S_HDR_ACC, S_POW_DIFF, S_HYDRATE, S_BLK_VALIDATE];
+const ST_UCB: &[&str] = &[S_UCB_INTO, S_CB_ACC, S_HDR_ACC, S_POW_DIFF, S_HYDRATE, S_BLK_VALIDATE];
+const ST_MERKLE: &[&str] = &[S_MP_VERIFY, S_MP_HEX];
+const ST_SEGPROOF: &[&str] = &[S_SP_RECON, S_SP_VALIDATE, S_SP_VALIDATE_WITH];
+const ST_HEX: &[&str] = &[S_COMMIT_FROM, S_HASH_FROM];
+const ST_PUSH: &[&str] = &[S_TX_VREAD, S_TX_HASH, S_TX_FEES, S_INPUTS, S_KERN_VERIFY, S_TX_VALIDATE];
+/// `Protocol::consume` dispatches on the message type: the union of the above
+const ST_CODEC: &[&str] = &[
+	S_MSG_FMT, S_TX_VREAD, S_TX_HASH, S_TX_FEES, S_INPUTS, S_KERN_VERIFY, S_TX_VALIDATE, S_UB_INTO, S_BLK_VREAD, S_BLK_HASH, S_HDR_ACC, S_POW_DIFF,
+	S_BLK_FEES, S_BLK_COINBASE, S_BLK_VALIDATE, S_CB_FROM, S_UCB_INTO, S_CB_ACC, S_HYDRATE, S_UH_INTO, S_LOCATOR, S_ADDRS, S_ARCHIVE, S_ID_ARITH,
+	S_FROM_PMMR, S_BM_INTO, S_SEG_RANGE, S_SEG_ROOT, S_SEG_FUP, S_SEG_VALIDATE, S_SEG_VALIDATE_WITH, S_SEG_ACC, S_SEG_PARTS, S_BM_APPEND, S_BM_FROM,
+];
 
 const A_EXPLICIT: u64 = 1 << 63;
 pub const AUX_BITMAP: u64 = 1 << 32;
@@ -156,25 +244,129 @@ fn seg_env(c: &CaseIn) -> SegEnv {
 	}
 }
 
+/// identifier arithmetic used by every handler of a received / requested segment
+fn ident_arith(id: SegmentIdentifier, mmr_size: u64) -> bool {
+	st(S_ID_ARITH, || {
+		let cap = id.segment_capacity();
+		let (first, last) = id.segment_pos_range(mmr_size);
+		cap > 0 && first <= last
+	})
+}
+
 /// `Segment::validate` / `validate_with` / `root` / `first_unpruned_parent` the way the desegmenter calls them
-fn seg_checks<T: PMMRIndexHashable>(s: &Segment<T>, c: &CaseIn, with: bool) -> bool {
+/// (add_bitmap_segment: validate_with(.., None, .., true); add_output_segment: validate_with(.., bitmap, .., false);
+/// add_rangeproof_segment: validate(.., bitmap, ..); add_kernel_segment: validate(.., None, ..)), then the accessors
+/// the adapters and `apply_*_segment` use.
+fn seg_checks<T: PMMRIndexHashable + Clone>(s: &Segment<T>, c: &CaseIn) -> bool {
 	let e = seg_env(c);
 	let bm = e.bitmap.as_ref();
-	let _ = s.segment_pos_range(e.mmr_size);
-	let r = s.root(e.mmr_size, bm).is_ok();
+	ident_arith(s.identifier(), e.mmr_size);
+	st(S_SEG_RANGE, || {
+		let (a, b) = s.segment_pos_range(e.mmr_size);
+		a <= b
+	});
+	let r = st(S_SEG_ROOT, || s.root(e.mmr_size, bm).is_ok());
 	if bm.is_some() || r {
 		// (without a bitmap `first_unpruned_parent` is only reached after `root` returned a hash)
-		let _ = s.first_unpruned_parent(e.mmr_size, bm);
+		st(S_SEG_FUP, || s.first_unpruned_parent(e.mmr_size, bm).is_ok());
 	}
-	let v = if with {
-		s.validate_with(e.mmr_size, bm, e.root, e.last_pos, e.other, true)
-	} else {
-		s.validate(e.mmr_size, bm, e.root)
-	};
-	let _ = s.validate_with(e.mmr_size, bm, e.root, e.last_pos, e.other, false);
-	let _ = s.leaf_iter().count() + s.hash_iter().count() + s.proof().size();
-	let _ = s.id();
-	v.is_ok()
+	let v1 = st(S_SEG_VALIDATE, || s.validate(e.mmr_size, bm, e.root).is_ok());
+	let v2 = st(S_SEG_VALIDATE_WITH, || {
+		let a = s.validate_with(e.mmr_size, bm, e.root, e.last_pos, e.other, true).is_ok();
+		let b = s.validate_with(e.mmr_size, bm, e.root, e.last_pos, e.other, false).is_ok();
+		a || b
+	});
+	st(S_SEG_ACC, || {
+		let n = s.leaf_iter().count() + s.hash_iter().count() + s.proof().size();
+		let _ = (s.id(), s.identifier().idx);
+		n > 0
+	});
+	st(S_SEG_PARTS, || {
+		let (_id, hash_pos, hashes, leaf_pos, leaf_data, _proof) = s.clone().parts();
+		hash_pos.len() == hashes.len() && leaf_pos.len() == leaf_data.len()
+	});
+	v1 || v2
+}
+
+// ---- fixtures of the serving side: real MMRs a `Get*Segment` request is answered from
+struct Fixtures {
+	kernels: VecBackend<TxKernel>,
+	outputs: VecBackend<OutputIdentifier>,
+	proofs: VecBackend<RangeProof>,
+	bitmap: BitmapAccumulator,
+}
+
+fn fill_backend<T: PMMRable, F: Fn(u64) -> T>(n: u64, mk: F) -> VecBackend<T> {
+	let mut be: VecBackend<T> = VecBackend::new();
+	{
+		let mut m = PMMR::new(&mut be);
+		for k in 0..n {
+			m.push(&mk(k)).expect("push");
+		}
+	}
+	be
+}
+
+fn fixtures() -> &'static Fixtures {
+	static F: OnceLock<Fixtures> = OnceLock::new();
+	F.get_or_init(|| {
+		alloc_track::unmeasured(|| {
+			let commit = |k: u64, t: u8| {
+				let mut b = [t; 33];
+				b[0] = 8 + (k & 1) as u8;
+				b[1..9].copy_from_slice(&k.to_be_bytes());
+				Commitment::from_vec(b.to_vec())
+			};
+			// the adapters serve kernel segments of height 9..14, bitmap 9..14, output 11..16, rangeproof 7..12:
+			// sizes that give several segments at the lowest served height and a partial last one
+			let kernels = fill_backend(1300, |k| TxKernel {
+				features: KernelFeatures::Coinbase,
+				excess: commit(k, 1),
+				excess_sig: Signature::from_raw_data(&[7u8; 64]).expect("sig"),
+			});
+			let outputs = fill_backend(4500, |k| OutputIdentifier::new(OutputFeatures::Plain, &commit(k, 2)));
+			let proofs = fill_backend(300, |k| {
+				let mut p = [3u8; 675];
+				p[..8].copy_from_slice(&k.to_be_bytes());
+				RangeProof { proof: p, plen: 675 }
+			});
+			let mut bitmap = BitmapAccumulator::new();
+			let nbits = 1300u64 * 1024 + 77;
+			bitmap.init((0..nbits).filter(|i| i % 97 == 0), nbits).expect("accumulator");
+			Fixtures { kernels, outputs, proofs, bitmap }
+		})
+	})
+}
+
+/// `Get{OutputBitmap,Output,RangeProof,Kernel}Segment`: the adapter admits the identifier's height by range, then the
+/// segmenter cuts the segment out of the PMMR (`Segment::from_pmmr`), and the bitmap segment is converted for the wire
+fn serve_segment_request(id: SegmentIdentifier, aux: u64) -> bool {
+	ident_arith(id, pmmr::insertion_to_pmmr_index(1 + (aux & 0xffff) % 3000));
+	st(S_FROM_PMMR, || {
+		let f = fixtures();
+		// the response is built by design: its size is not charged to the decoding of the 41-byte request
+		alloc_track::unmeasured(|| {
+			let mut any = false;
+			if (9..14).contains(&id.height) {
+				let ro = ReadonlyPMMR::at(&f.kernels, f.kernels.size());
+				any |= Segment::from_pmmr(id, &ro, false).is_ok();
+				let ro = f.bitmap.readonly_pmmr();
+				if let Ok(seg) = Segment::from_pmmr(id, &ro, false) {
+					let bs = BitmapSegment::from(seg);
+					any |= bs.into_segment().is_ok();
+				}
+			}
+			if (11..16).contains(&id.height) {
+				let ro = ReadonlyPMMR::at(&f.outputs, f.outputs.size());
+				any |= Segment::from_pmmr(id, &ro, true).is_ok();
+			}
+			if (7..12).contains(&id.height) {
+				let ro = ReadonlyPMMR::at(&f.proofs, f.proofs.size());
+				any |= Segment::from_pmmr(id, &ro, true).is_ok();
+			}
+			any
+		})
+	})
 }
 
 fn pv(c: &CaseIn) -> ProtocolVersion {
@@ -233,83 +425,44 @@ fn none<T>(_: T, _: &CaseIn) -> bool {
 	true
 }
 
-macro_rules! plain {
-	($name:expr, $t:ty) => {
-		Target {
-			name: $name,
-			kind: TKind::Ser,
-			run: |c| de::<$t, _>(c, none),
-		}
-	};
+/// handshake.rs: what `Handshake::accept` / `initiate` read off a decoded Hand / Shake
+fn post_hand(h: Hand, _: &CaseIn) -> bool {
+	st(S_HAND, || {
+		let v = std::cmp::min(h.version.value(), 1000);
+		let _ = (h.capabilities.bits(), h.nonce, h.genesis.to_hex(), h.total_difficulty.to_num());
+		let _ = (h.sender_addr.as_key(), h.receiver_addr.to_string(), h.user_agent.len());
+		v <= 1000
+	})
+}
+fn post_shake(s: Shake, _: &CaseIn) -> bool {
+	st(S_SHAKE, || {
+		let v = std::cmp::min(s.version.value(), 1000);
+		let _ = (s.capabilities.bits(), s.genesis.to_hex(), s.total_difficulty.to_num(), s.user_agent.len());
+		v <= 1000
+	})
 }
 
-fn post_tx(tx: Transaction, _: &CaseIn) -> bool {
-	let a = tx.validate_read().is_ok();
-	let _ = tx.body.validate_read(Weighting::AsTransaction);
-	let _ = tx.hash();
-	let _ = tx.fee();
-	let _ = tx.weight();
-	for k in tx.kernels().iter().take(4) {
-		let _ = k.verify();
+/// `Protocol::consume`: what the handler of each message type does with the decoded body before chain state
+fn handle_message(m: Message, c: &CaseIn) -> bool {
+	st(S_MSG_FMT, || !format!("{} {:?}", m, m).is_empty());
+	match m {
+		Message::Transaction(tx) | Message::StemTransaction(tx) => post_tx(tx, c),
+		Message::Block(b) => post_ublock(b, c),
+		Message::CompactBlock(b) => post_ucb(b, c),
+		Message::Header(h) => post_uheader(h, c),
+		Message::Headers(d) => d.headers.iter().all(header_steps),
+		Message::GetHeaders(l) => post_locator(l, c),
+		Message::PeerAddrs(p) => post_peer_addrs(p, c),
+		Message::TxHashSetArchive(a) => post_archive(a, c),
+		Message::GetOutputBitmapSegment(r) | Message::GetOutputSegment(r) | Message::GetRangeProofSegment(r) | Message::GetKernelSegment(r) => {
+			serve_segment_request(r.identifier, c.aux)
+		}
+		Message::OutputBitmapSegment(r) => post_bitmap_segment(r.segment, c),
+		Message::OutputSegment(r) => seg_checks(&r.response.segment, c),
+		Message::RangeProofSegment(r) => seg_checks(&r.segment, c),
+		Message::KernelSegment(r) => seg_checks(&r.segment, c),
+		_ => true,
 	}
-	a
-}
-fn post_body(b: TransactionBody, _: &CaseIn) -> bool {
-	let a = b.validate_read(Weighting::AsBlock).is_ok();
-	let _ = b.validate_read(Weighting::AsTransaction);
-	let _ = b.validate_read(Weighting::NoLimit);
-	a
-}
-fn post_block(b: Block, _: &CaseIn) -> bool {
-	let a = b.validate_read().is_ok();
-	let _ = b.hash();
-	let _ = b.header.total_difficulty();
-	let cb: CompactBlock = b.into();
-	let _ = cb.hash();
-	a
-}
-fn post_kernel(k: TxKernel, _: &CaseIn) -> bool {
-	let _ = k.verify();
-	let _ = k.hash();
-	let _ = k.msg_to_sign();
-	true
-}
-fn post_merkle(p: MerkleProof, c: &CaseIn) -> bool {
-	let id = OutputIdentifier::new(
-		grin_core::core::transaction::OutputFeatures::Plain,
-		&grin_util::secp::pedersen::Commitment::from_vec(vec![9u8; 33]),
-	);
-	let e = seg_env(c);
-	let _ = p.verify(e.root, &id, c.aux & 0xfff);
-	let _ = p.verify(e.root, &id, p.mmr_size.wrapping_sub(1));
-	let _ = p.to_hex();
-	true
-}
-fn post_segproof(p: SegmentProof, c: &CaseIn) -> bool {
-	let e = seg_env(c);
-	let last = e.mmr_size - 1;
-	let first = last.saturating_sub(c.aux >> 40 & 0xff);
-	let _ = p.reconstruct_root(e.mmr_size, first, last, e.other, 1 + last);
-	let _ = p.validate(e.mmr_size, e.root, first, last, e.other, 1 + last);
-	let _ = p.validate_with(e.mmr_size, e.root, 0, last, e.other, 1 + last, e.last_pos, e.other, true);
-	let _ = p.size();
-	true
-}
-fn post_bitmap_segment(bs: BitmapSegment, c: &CaseIn) -> bool {
-	// adapters: `segment.into()`; desegmenter: validate_with(.., None, output_root, output_mmr_size, other, true)
-	let seg: Segment<BitmapChunk> = Segment::from(bs);
-	let ok = seg_checks(&seg, c, true);
-	// chunk application on a fresh accumulator (what apply_bitmap_segment does with the leaf data)
-	let mut acc = BitmapAccumulator::new();
-	let (_, _, _, _, leaf_data, _) = seg.clone().parts();
-	for ch in leaf_data.into_iter().take(64) {
-		let _ = acc.append_chunk(ch);
-	}
-	let _ = acc.as_bitmap();
-	// and back (what the segmenter does before sending)
-	let back = BitmapSegment::from(seg);
-	let _ = back.into_segment();
-	ok
 }
 
 fn stream_res(ok: bool, consumed: u64, reads: u64) -> Res {
@@ -342,6 +495,7 @@ fn run_codec(c: &CaseIn) -> Res {
 	let mut consumed = 0u64;
 	let mut reads = 0u64;
 	let mut zero_reads = 0u64;
+	let mut post = true;
 	let limit = c.bytes.len() as u64 + 2;
 	loop {
 		let (res, n) = codec.read();
@@ -350,14 +504,7 @@ fn run_codec(c: &CaseIn) -> Res {
 			Ok(m) => {
 				reads += 1;
 				if let Message::TxHashSetArchive(a) = &m {
-					let meta = AttachmentMeta {
-						size: a.bytes as usize,
-						hash: a.hash,
-						height: a.height,
-						start_time: Utc::now(),
-						path: PathBuf::from("/nonexistent"),
-					};
-					codec.expect_attachment(Arc::new(meta));
+					codec.expect_attachment(Arc::new(archive_meta(a)));
 				}
 				if let Message::Attachment(u, _) = &m {
 					if u.read == 0 {
@@ -365,6 +512,7 @@ fn run_codec(c: &CaseIn) -> Res {
 						zero_reads += 1;
 					}
 				}
+				post &= handle_message(m, c);
 				if reads > 2 * limit {
 					break;
 				}
@@ -374,18 +522,90 @@ fn run_codec(c: &CaseIn) -> Res {
 	}
 	drop(codec);
 	drop(w);
-	stream_res(reads > 0, consumed, reads - zero_reads.min(reads))
+	let mut r = stream_res(reads > 0, consumed, reads - zero_reads.min(reads));
+	r.post_ok = reads > 0 && post;
+	r
 }
 
-fn run_read_message<T: Readable>(c: &CaseIn, ty: Type) -> Res {
+fn run_read_message<T: Readable, P: FnOnce(T, &CaseIn) -> bool>(c: &CaseIn, ty: Type, post: P) -> Res {
 	let mut s = c.bytes;
 	alloc_track::begin();
 	let r = msg::read_message::<T, _>(&mut s, pv(c), ty);
-	stream_res(r.is_ok(), (c.bytes.len() - s.len()) as u64, r.is_ok() as u64)
+	let consumed = (c.bytes.len() - s.len()) as u64;
+	match r {
+		Ok(v) => {
+			let mut res = stream_res(true, consumed, 1);
+			res.post_ok = post(v, c);
+			res
+		}
+		Err(_) => stream_res(false, consumed, 0),
+	}
 }
 
 fn input_str(c: &CaseIn) -> String {
 	String::from_utf8_lossy(c.bytes).into_owned()
+}
+
+macro_rules! plain {
+	($name:expr, $t:ty) => {
+		Target {
+			name: $name,
+			kind: TKind::Ser,
+			run: |c| de::<$t, _>(c, none),
+			steps: &[],
+		}
+	};
+}
+macro_rules! with {
+	($name:expr, $t:ty, $post:expr, $steps:expr) => {
+		Target {
+			name: $name,
+			kind: TKind::Ser,
+			run: |c| de::<$t, _>(c, $post),
+			steps: $steps,
+		}
+	};
+}
+
+/// hex argument of an API handler (api/src/handlers: get_output, get_kernel, outputs_block_batch, get_header ...)
+fn run_from_hex(c: &CaseIn) -> Res {
+	let s = input_str(c);
+	alloc_track::begin();
+	match grin_util::from_hex(&s) {
+		Ok(v) => {
+			let n = v.len();
+			st(S_COMMIT_FROM, || {
+				let cm = Commitment::from_vec(v.clone());
+				format!("{:?}", cm).len() > 0 && n >= 33
+			});
+			st(S_HASH_FROM, || {
+				let h = Hash::from_vec(&v);
+				!h.to_hex().is_empty() && n >= 32
+			});
+			stream_res(true, 0, 0)
+		}
+		Err(_) => stream_res(false, 0, 0),
+	}
+}
+
+/// api/src/handlers/pool_api.rs `update_pool`: tx_hex -> util::from_hex -> ser::deserialize::<Transaction> at
+/// protocol version 1 -> log line (hash, counts) -> add_to_pool
+fn run_push_tx_hex(c: &CaseIn) -> Res {
+	let s = input_str(c);
+	alloc_track::begin();
+	let bin = match grin_util::from_hex(&s) {
+		Ok(b) => b,
+		Err(_) => return stream_res(false, 0, 0),
+	};
+	let r: Result<Transaction, ser::Error> = ser::deserialize(&mut &bin[..], ProtocolVersion(1), DeserializationMode::default());
+	match r {
+		Ok(tx) => {
+			let mut res = stream_res(true, 0, 0);
+			res.post_ok = post_tx(tx, c);
+			res
+		}
+		Err(_) => stream_res(false, 0, 0),
+	}
 }
 
 pub fn targets() -> Vec<Target> {
@@ -394,148 +614,48 @@ pub fn targets() -> Vec<Target> {
 		plain!("Hash::read", Hash),
 		plain!("ShortId::read", ShortId),
 		plain!("KernelFeatures::read", KernelFeatures),
-		Target {
-			name: "TxKernel::read",
-			kind: TKind::Ser,
-			run: |c| de::<TxKernel, _>(c, post_kernel),
-		},
+		with!("TxKernel::read", TxKernel, post_kernel, ST_KERNEL),
 		plain!("Input::read", Input),
 		plain!("CommitWrapper::read", CommitWrapper),
 		plain!("Output::read", Output),
 		plain!("OutputIdentifier::read", OutputIdentifier),
 		plain!("RangeProof::read", RangeProof),
-		Target {
-			name: "TransactionBody::read",
-			kind: TKind::Ser,
-			run: |c| de::<TransactionBody, _>(c, post_body),
-		},
-		Target {
-			name: "Transaction::read",
-			kind: TKind::Ser,
-			run: |c| de::<Transaction, _>(c, post_tx),
-		},
-		Target {
-			name: "BlockHeader::read",
-			kind: TKind::Ser,
-			run: |c| {
-				de::<BlockHeader, _>(c, |h, _| {
-					let _ = h.hash();
-					let _ = h.pre_pow();
-					true
-				})
-			},
-		},
-		Target {
-			name: "UntrustedBlockHeader::read",
-			kind: TKind::Ser,
-			run: |c| {
-				de::<UntrustedBlockHeader, _>(c, |h, _| {
-					let h: BlockHeader = h.into();
-					let _ = h.hash();
-					true
-				})
-			},
-		},
-		Target {
-			name: "Block::read",
-			kind: TKind::Ser,
-			run: |c| de::<Block, _>(c, post_block),
-		},
-		Target {
-			name: "UntrustedBlock::read",
-			kind: TKind::Ser,
-			run: |c| de::<UntrustedBlock, _>(c, |b, c| post_block(b.into(), c)),
-		},
-		Target {
-			name: "CompactBlock::read",
-			kind: TKind::Ser,
-			run: |c| {
-				de::<CompactBlock, _>(c, |b, _| {
-					let _ = b.hash();
-					let _ = (b.out_full().len(), b.kern_full().len(), b.kern_ids().len());
-					true
-				})
-			},
-		},
-		Target {
-			name: "UntrustedCompactBlock::read",
-			kind: TKind::Ser,
-			run: |c| {
-				de::<UntrustedCompactBlock, _>(c, |b, _| {
-					let b: CompactBlock = b.into();
-					let _ = b.hash();
-					true
-				})
-			},
-		},
+		with!("TransactionBody::read", TransactionBody, post_body, ST_BODY),
+		with!("Transaction::read", Transaction, post_tx, ST_TX),
+		with!("BlockHeader::read", BlockHeader, |h, _| header_steps(&h), ST_HEADER),
+		with!("UntrustedBlockHeader::read", UntrustedBlockHeader, post_uheader, ST_UHEADER),
+		with!("Block::read", Block, post_block, ST_BLOCK),
+		with!("UntrustedBlock::read", UntrustedBlock, post_ublock, ST_UBLOCK),
+		with!("CompactBlock::read", CompactBlock, post_cb, ST_CB),
+		with!("UntrustedCompactBlock::read", UntrustedCompactBlock, post_ucb, ST_UCB),
 		plain!("Proof::read", Proof),
 		plain!("ProofOfWork::read", ProofOfWork),
-		Target {
-			name: "MerkleProof::read",
-			kind: TKind::Ser,
-			run: |c| de::<MerkleProof, _>(c, post_merkle),
-		},
-		plain!("SegmentIdentifier::read", SegmentIdentifier),
-		Target {
-			name: "SegmentProof::read",
-			kind: TKind::Ser,
-			run: |c| de::<SegmentProof, _>(c, post_segproof),
-		},
-		Target {
-			name: "Segment<OutputIdentifier>::read",
-			kind: TKind::Ser,
-			run: |c| de::<Segment<OutputIdentifier>, _>(c, |s, c| seg_checks(&s, c, true)),
-		},
-		Target {
-			name: "Segment<RangeProof>::read",
-			kind: TKind::Ser,
-			run: |c| de::<Segment<RangeProof>, _>(c, |s, c| seg_checks(&s, c, false)),
-		},
-		Target {
-			name: "Segment<TxKernel>::read",
-			kind: TKind::Ser,
-			run: |c| de::<Segment<TxKernel>, _>(c, |s, c| seg_checks(&s, c, false)),
-		},
-		Target {
-			name: "BitmapSegment::read",
-			kind: TKind::Ser,
-			run: |c| de::<BitmapSegment, _>(c, post_bitmap_segment),
-		},
+		with!("MerkleProof::read", MerkleProof, post_merkle, ST_MERKLE),
+		with!("SegmentIdentifier::read", SegmentIdentifier, |id, c| serve_segment_request(id, c.aux), ST_SEGREQ),
+		with!("SegmentProof::read", SegmentProof, post_segproof, ST_SEGPROOF),
+		with!("Segment<OutputIdentifier>::read", Segment<OutputIdentifier>, |s, c| seg_checks(&s, c), ST_SEG),
+		with!("Segment<RangeProof>::read", Segment<RangeProof>, |s, c| seg_checks(&s, c), ST_SEG),
+		with!("Segment<TxKernel>::read", Segment<TxKernel>, |s, c| seg_checks(&s, c), ST_SEG),
+		with!("BitmapSegment::read", BitmapSegment, post_bitmap_segment, ST_BITMAP),
 		// ---- p2p
 		plain!("MsgHeaderWrapper::read", MsgHeaderWrapper),
-		plain!("Hand::read", Hand),
-		plain!("Shake::read", Shake),
+		with!("Hand::read", Hand, post_hand, &[S_HAND]),
+		with!("Shake::read", Shake, post_shake, &[S_SHAKE]),
 		plain!("Ping::read", Ping),
 		plain!("Pong::read", Pong),
 		plain!("GetPeerAddrs::read", GetPeerAddrs),
-		plain!("PeerAddrs::read", PeerAddrs),
-		plain!("PeerAddr::read", PeerAddr),
+		with!("PeerAddrs::read", PeerAddrs, post_peer_addrs, &[S_ADDRS]),
+		with!("PeerAddr::read", PeerAddr, |a, _| st(S_ADDR_KEY, || !a.as_key().is_empty() && !a.to_string().is_empty()), &[S_ADDR_KEY]),
 		plain!("PeerError::read", PeerError),
-		plain!("Locator::read", Locator),
+		with!("Locator::read", Locator, post_locator, &[S_LOCATOR]),
 		plain!("BanReason::read", BanReason),
 		plain!("TxHashSetRequest::read", TxHashSetRequest),
-		plain!("TxHashSetArchive::read", TxHashSetArchive),
-		plain!("SegmentRequest::read", SegmentRequest),
-		Target {
-			name: "SegmentResponse<RangeProof>::read",
-			kind: TKind::Ser,
-			run: |c| de::<SegmentResponse<RangeProof>, _>(c, |r, c| seg_checks(&r.segment, c, false)),
-		},
-		Target {
-			name: "SegmentResponse<TxKernel>::read",
-			kind: TKind::Ser,
-			run: |c| de::<SegmentResponse<TxKernel>, _>(c, |r, c| seg_checks(&r.segment, c, false)),
-		},
-		Target {
-			name: "OutputSegmentResponse::read",
-			kind: TKind::Ser,
-			run: |c| de::<OutputSegmentResponse, _>(c, |r, c| seg_checks(&r.response.segment, c, true)),
-		},
-		Target {
-			name: "OutputBitmapSegmentResponse::read",
-			kind: TKind::Ser,
-			run: |c| de::<OutputBitmapSegmentResponse, _>(c, |r, c| post_bitmap_segment(r.segment, c)),
-		},
+		with!("TxHashSetArchive::read", TxHashSetArchive, post_archive, &[S_ARCHIVE]),
+		with!("SegmentRequest::read", SegmentRequest, |r, c| serve_segment_request(r.identifier, c.aux), ST_SEGREQ),
+		with!("SegmentResponse<RangeProof>::read", SegmentResponse<RangeProof>, |r, c| seg_checks(&r.segment, c), ST_SEG),
+		with!("SegmentResponse<TxKernel>::read", SegmentResponse<TxKernel>, |r, c| seg_checks(&r.segment, c), ST_SEG),
+		with!("OutputSegmentResponse::read", OutputSegmentResponse, |r, c| seg_checks(&r.response.segment, c), ST_SEG),
+		with!("OutputBitmapSegmentResponse::read", OutputBitmapSegmentResponse, |r, c| post_bitmap_segment(r.segment, c), ST_BITMAP),
 		// ---- API strings
 		Target {
 			name: "MerkleProof::from_hex",
@@ -543,35 +663,57 @@ pub fn targets() -> Vec<Target> {
 			run: |c| {
 				let s = input_str(c);
 				alloc_track::begin();
-				let r = MerkleProof::from_hex(&s);
-				stream_res(r.is_ok(), 0, 0)
+				match MerkleProof::from_hex(&s) {
+					Ok(p) => {
+						let mut r = stream_res(true, 0, 0);
+						r.post_ok = post_merkle(p, c);
+						r
+					}
+					Err(_) => stream_res(false, 0, 0),
+				}
 			},
+			steps: ST_MERKLE,
 		},
 		Target {
 			name: "util::from_hex",
 			kind: TKind::Str,
+			run: run_from_hex,
+			steps: ST_HEX,
+		},
+		Target {
+			name: "Hash::from_hex",
+			kind: TKind::Str,
 			run: |c| {
 				let s = input_str(c);
 				alloc_track::begin();
-				let r = grin_util::from_hex(&s);
-				stream_res(r.is_ok(), 0, 0)
+				stream_res(Hash::from_hex(&s).is_ok(), 0, 0)
 			},
+			steps: &[],
+		},
+		Target {
+			name: "api::push_tx_hex",
+			kind: TKind::Str,
+			run: run_push_tx_hex,
+			steps: ST_PUSH,
 		},
 		// ---- streams
 		Target {
 			name: "msg::read_message<Hand>",
 			kind: TKind::Stream,
-			run: |c| run_read_message::<Hand>(c, Type::Hand),
+			run: |c| run_read_message::<Hand, _>(c, Type::Hand, post_hand),
+			steps: &[S_HAND],
 		},
 		Target {
 			name: "msg::read_message<Shake>",
 			kind: TKind::Stream,
-			run: |c| run_read_message::<Shake>(c, Type::Shake),
+			run: |c| run_read_message::<Shake, _>(c, Type::Shake, post_shake),
+			steps: &[S_SHAKE],
 		},
 		Target {
 			name: "Codec::read",
 			kind: TKind::Stream,
 			run: run_codec,
+			steps: ST_CODEC,
 		},
 	]
 }
